@@ -57,7 +57,45 @@ def dec_spec():
     sp["decode_datetime"] = dict(params=V, exits=[
         Exit("return", res="any", effect=log("decode_datetime", "returned")),
         Exit("ValueError", effect=log("decode_datetime", "raised"))])
-    sp["is_leap_seconds"] = dict(params=V, exits=[Exit("return", res="bool")])
+
+    def leap(v):
+        B_ = z3.BoolSort()
+        return z3.Or(z3.And(z3.Not(z3.Const(str(g("leap_second_Ymd_re")) + "_is_none", B_)), matches(g("leap_second_Ymd_re"), v)),
+                     z3.And(z3.Not(z3.Const(str(g("leap_second_Yj_re")) + "_is_none", B_)), matches(g("leap_second_Yj_re"), v)))
+    sp["is_leap_seconds"] = dict(params=V, exits=[Exit("return", res="bool", post=lambda pre, post, a, r: [
+        ("true exactly when one of the grammar's leap-second patterns (if the grammar has them) matches the whole text",
+         r.t == leap(txt(a["value"])))])])
+
+    # PVLDecoder.decode_datetime (the strptime cascade every decoder starts with): type and zone of the result (C14)
+    NO_TZ = z3.Const("grammar_default_timezone_is_none", z3.BoolSort())
+    ZS = lit("Z")
+
+    def pvl_dt_post(pre, post, a, r):
+        v = txt(a["value"])
+        D, T_, DT = date_ok(v), time_ok(v), dt_ok(v)
+        out = []
+        if isinstance(r, ObjV) and r.role == "dtval":
+            fam, kind, tz = r.info.get("family"), r.info.get("kind"), r.info.get("tz")
+            if kind == "date":
+                out.append(("a date only when a date format accepts the text; dates stay naive",
+                            z3.And(D, z3.BoolVal(fam == "date_formats" and tz is None))))
+            else:
+                out.append(("a time only when no date format but a time format accepts; a date-time only when neither does",
+                            z3.And(z3.Not(D), T_) if kind == "time" and fam == "time_formats" else
+                            z3.And(z3.Not(D), z3.Not(T_), DT) if kind is None and fam == "datetime_formats" else z3.BoolVal(False)))
+                out.append(("a trailing Z gives UTC", z3.BoolVal(tz == "utc") == suffixof(v, ZS)))
+                out.append(("an unmarked time gets the grammar's default zone when it has one, else it stays naive",
+                            z3.Implies(z3.Not(suffixof(v, ZS)), z3.If(NO_TZ, z3.BoolVal(tz is None), z3.BoolVal(tz == "default")))))
+        else:
+            out.append(("text is returned only for a seconds=60 time that no strptime format accepts, unchanged",
+                        z3.And(z3.Not(D), z3.Not(T_), z3.Not(DT), leap(v),
+                               (r.t == v) if isinstance(r, Z) else z3.BoolVal(False))))
+        return out
+    sp["decode_datetime:PVLDecoder"] = dict(params=V, exits=[
+        Exit("return", res="any", post=pvl_dt_post, effect=log("decode_datetime", "returned")),
+        Exit("ValueError", when=lambda pre, a: z3.And(z3.Not(date_ok(txt(a["value"]))), z3.Not(time_ok(txt(a["value"]))),
+                                                      z3.Not(dt_ok(txt(a["value"]))), z3.Not(leap(txt(a["value"])))),
+             effect=log("decode_datetime", "raised"))])
     sp["decode_unquoted_string"] = dict(params=V, exits=[
         Exit("return", res="str", effect=log("decode_unquoted_string", "returned"), post=lambda pre, post, a, r: [
             ("returns-its-argument", r.t == txt(a["value"])),
@@ -137,7 +175,7 @@ def contracts():
     for cls, ms in DEC_METHODS.items():
         sp = dec_spec()
         for m in ms:
-            d = dict(sp[m])
+            d = dict(sp.get(f"{m}:{cls}", sp[m]))
             assumed = d.pop("assumed", False)
             pure = d.pop("pure", False)
             c = Contract(D + f"{cls}.{m}", props=("C17", "C06", "C18"), **d)
